@@ -5,6 +5,7 @@ package main
 
 import (
 	"bufio"
+	"bytes"
 	"encoding/json"
 	"flag"
 	"fmt"
@@ -165,7 +166,13 @@ func workerMain(args []string) {
 	// realistic defect keeps in the wrong place.  A child process generates;
 	// this process only evaluates, so the history a replay file records
 	// (evaluations only) is the whole history of the process.
-	var gen func(i int) []*Scenario = func(i int) []*Scenario { return ph.Gen(rngFor(*seed, *prop+"/"+*phase, i), i) }
+	var gen func(i int) []*Scenario = func(i int) []*Scenario {
+		scns := ph.Gen(rngFor(*seed, *prop+"/"+*phase, i), i)
+		for j, s := range scns {
+			s.Env = genEnv(*seed, *prop+"/"+*phase, i, j)
+		}
+		return scns
+	}
 	if *genchild && *worker < *runs {
 		cmd := exec.Command(os.Args[0], "gen", "-framed", "-prop", *prop, "-phase", *phase, "-seed", fmt.Sprint(*seed),
 			"-from", fmt.Sprint(*worker), "-to", fmt.Sprint(*runs-1), "-stride", fmt.Sprint(*workers),
@@ -191,6 +198,10 @@ func workerMain(args []string) {
 					b, _ := os.ReadFile(errFile.Name())
 					fmt.Fprintf(os.Stdout, "generator child ended early before run %d: %v: %s\n", i, err, trunc(string(b), 2000))
 					os.Exit(4)
+				}
+				if bytes.HasPrefix(line, []byte("#GENPANIC")) {
+					st.Probes["scenario_generation_panicked_inside_the_library_run_index_skipped"]++
+					continue
 				}
 				if line[0] == '#' {
 					var got int
@@ -399,7 +410,25 @@ func genMain(args []string) {
 		if i < 0 {
 			continue
 		}
-		for j, s := range ph.Gen(rngFor(*seed, *prop+"/"+*phase, i), i) {
+		var scns []*Scenario
+		func() {
+			// generation runs the code under test (reference parses, reference
+			// walks over the library's accessors); a change that makes one of
+			// them panic must not take the generator - and with it the whole
+			// check - down: the run index is skipped and counted, the panic
+			// itself is for the evaluations (which run under a guard) to report
+			defer func() {
+				if r := recover(); r != nil {
+					scns = nil
+					fmt.Fprintf(w, "#GENPANIC %d %s\n", i, strings.ReplaceAll(trunc(fmt.Sprint(r), 200), "\n", " "))
+				}
+			}()
+			scns = ph.Gen(rngFor(*seed, *prop+"/"+*phase, i), i)
+			for j, s := range scns {
+				s.Env = genEnv(*seed, *prop+"/"+*phase, i, j)
+			}
+		}()
+		for j, s := range scns {
 			s.Seed, s.Run, s.Sub, s.Variant = *seed, i, j, *variant
 			b, _ := json.Marshal(s)
 			w.Write(b)
